@@ -689,7 +689,14 @@ func checkLocationEvaluator(c *Ctx, gsq, ev *ssa.Function) {
 				if p.t.Op == "const" {
 					continue
 				}
-				stt, why = broken, "on the Complement branch a value is returned without ReverseComplement: "+short(p.t.String())
+				if p.t.contains(func(x *Term) bool {
+				return (x.Op == "call" && (x.Name == "?" || (strings.HasPrefix(x.Name, "poly") && !strings.Contains(x.Name, "getFeatureSequence")))) || x.Op == "global" || x.Op == "closure"
+			}) {
+				// worked out by a helper of the module, or read from package-level memory: the other strand may come from there
+				stt, why = unknown, "on the Complement branch the value returned is made by a helper or from package-level memory, not visibly by ReverseComplement: "+short(p.t.String())
+				continue
+			}
+			stt, why = broken, "on the Complement branch a value is returned without ReverseComplement: "+short(p.t.String())
 			}
 			// a data value handed back on a path that never looks at the strand flag (a fast path in front of it)
 			if !pos && !neg && stt == holds && p.t.Op != "const" && p.cond != nil && p.cond.Op != "true" && (len(opaqueParts(p.t, nil)) == 0 || p.t.isCall(fname(ev)) && !p.t.contains(func(x *Term) bool { return x.isField("Complement") })) {
